@@ -413,6 +413,7 @@ func TestVerifRegistry(t *testing.T) {
 //	RS <name>
 //	OT | OS        open a new incarnation of the target / source pair (no settling: overlaps what is still shutting down)
 //	BT k | BS k    break incarnation k's stream (no settling)
+//	FT | FS        the local server refuses the next stream the target / source pair's receiver opens towards it
 //	W              settle; report registries and which handlers are still running
 //	M h            the source emits watermark h; settle; report what the newest target incarnation received
 //	A h            the newest target incarnation acknowledges h; settle; report what the source received
@@ -458,6 +459,18 @@ func vgRunStreams(t *testing.T, lines []string, out func(string)) {
 		case "OS":
 			sc.openSource(0)
 			sInc = append(sInc, sc.srcH[0])
+			continue
+		case "FT", "FS":
+			key := history.ClusterShardID{ClusterID: vrTgtCluster, ShardID: 1}
+			if f[0] == "FS" {
+				key = history.ClusterShardID{ClusterID: vrSrcCluster, ShardID: 1}
+			}
+			sc.reverse.mu.Lock()
+			if sc.reverse.fail == nil {
+				sc.reverse.fail = map[history.ClusterShardID]int{}
+			}
+			sc.reverse.fail[key]++
+			sc.reverse.mu.Unlock()
 			continue
 		case "BT":
 			if n < len(tInc) {
